@@ -146,14 +146,47 @@ def yearTouchesDigits (n : Numeric) : List Item → Bool
      | .numeric m _ => decide (m = n) && !stopsNumber b
      | _ => false) || yearTouchesDigits n (b :: rest)
 
+/-! ### what a target type can print -/
+
+/-- what an item needs from the value it is printed for: (a date, a time of day, an offset) -/
+def itemNeeds : Item → Bool × Bool × Bool
+  | .literal _ | .space _ => (false, false, false)
+  | .numeric .hour _ | .numeric .hour12 _ | .numeric .minute _ | .numeric .second _
+  | .numeric .nanosecond _ => (false, true, false)
+  | .numeric .timestamp _ => (true, true, false)
+  | .numeric _ _ => (true, false, false)
+  | .fixed .shortMonthName | .fixed .longMonthName | .fixed .shortWeekdayName
+  | .fixed .longWeekdayName => (true, false, false)
+  | .fixed .lowerAmPm | .fixed .upperAmPm | .fixed .nanosecond | .fixed .nanosecond3 | .fixed .nanosecond6
+  | .fixed .nanosecond9 | .fixed .nanosecond3NoDot | .fixed .nanosecond6NoDot
+  | .fixed .nanosecond9NoDot => (false, true, false)
+  | .fixed .rfc2822 | .fixed .rfc3339 => (true, true, true)
+  | .fixed _ => (false, false, true)
+  | .error => (true, true, true)
+
+/-- what a value of the target type shows: `NaiveDate` a date, `NaiveTime` a time, `NaiveDateTime` both,
+`DateTime` both and an offset -/
+def targetShows : Target → Bool × Bool × Bool
+  | .date => (true, false, false)
+  | .time => (false, true, false)
+  | .naive => (true, true, false)
+  | .zoned => (true, true, true)
+
+/-- the target type has everything the item needs (otherwise `format` fails with `fmt::Error`) -/
+def showsFor (t : Target) (it : Item) : Bool :=
+  (!(itemNeeds it).1 || (targetShows t).1) && (!(itemNeeds it).2.1 || (targetShows t).2.1) &&
+    (!(itemNeeds it).2.2 || (targetShows t).2.2)
+
 /-- a century without a two-digit year (and without the full year) is not a year -/
 def groupUsable (y q r : Bool) : Bool := !(q && !y && !r)
 
-/-- the item lists of the family, per target type: a date-time needs a full date and a full time (and a
+/-- the item lists of the family, per target type: every item is one the reader can invert and the
+target type can print (`showsFor`: no time item for a `NaiveDate`, no offset item for a naive value);
+a date-time needs a full date and a full time (and a
 zone-aware one an offset or a timestamp next to them), or the instant as a timestamp alone
 (`stampOnly`; a timestamp next to an incomplete set of date/time fields is outside the family) -/
 def Unambiguous (is : List Item) (t : Target) : Prop :=
-  (∀ it ∈ is, invertible it = true) ∧ separated is = true ∧
+  (∀ it ∈ is, invertible it = true ∧ showsFor t it = true) ∧ separated is = true ∧
   groupUsable (carries is).year (carries is).yearDiv (carries is).yearMod = true ∧
   groupUsable (carries is).isoYear (carries is).isoYearDiv (carries is).isoYearMod = true ∧
   let c := carries is
